@@ -59,12 +59,12 @@ def rand_entries(rng, valid=False):
             v = rng.choice([S('true'), I(1), N, L(B(True))]) if wrong else B(rng.random() < 0.5)
         elif k == 'ignore_class_notfound_regexp':
             if wrong:
-                v = rng.choice([S('.*'), B(True), L(S('.*'), I(1)), M(('a', S('b')))])
+                v = rng.choice([S('.*'), B(True), L(S('.*'), I(1)), M(('a', S('b'))), N, N])
             else:
                 pool = [p for p in PATS if p not in BAD] if valid else PATS
                 v = ('l', [S(rng.choice(pool)) for _ in range(rng.randint(0, 3))])
         elif k == 'reclass_rs_compat_flags':
-            v = rng.choice([S('x'), L(I(1))]) if wrong else ('l', [S(rng.choice(['compose-node-name-literal-dots', 'ComposeNodeNameLiteralDots', 'bogus-flag']))
+            v = rng.choice([S('x'), L(I(1)), N]) if wrong else ('l', [S(rng.choice(['compose-node-name-literal-dots', 'ComposeNodeNameLiteralDots', 'bogus-flag']))
                                                                   for _ in range(rng.randint(0, 2))])
         else:
             v = rng.choice([S('yaml_fs'), B(True), I(3), L(S('a'))])
